@@ -62,7 +62,7 @@ SPEC = {
     ],
     "assumptions": [
         "amount strings with exponents beyond 1e20000 are not generated: droplet.FromString on them is F13, handled under C30",
-        "valid count parameters (scan / num of wallet endpoints) are kept <= 700 in the main stream; the unbounded case is the known finding replayed at the end of each run",
+        "valid count parameters (scan / num of wallet endpoints) are kept <= 50 in the main stream and the wallet-growing endpoints get a fixed share of the budget; the unbounded case is the known finding replayed at the end of each run",
     ],
 }
 
